@@ -786,6 +786,36 @@ func c13Server() *Scenario {
 					}
 				}
 			}
+			// a run of server callbacks: every pushed call is a valid request with an id, from the first to the 17th
+			var cbOut [][]byte
+			xc := vs.Run(nil, func() {
+				lib, peer, p := NewPipe(PipeOpts{Name: "srv", CloseUnblocksRecv: true, Quiet: true})
+				srv := jrpc2.NewServer(anyAssigner{func(context.Context, *jrpc2.Request) (any, error) { return 1, nil }}, &jrpc2.ServerOptions{AllowPush: true})
+				srv.Start(lib)
+				for k := 0; k < 17; k++ {
+					ctx, cancel := cancelCauseCtx()
+					vs.GoNamed("cb", func() { srv.Callback(ctx, "cb", []int{k}) })
+					vs.AwaitQuiescence()
+					cancel()
+					vs.AwaitQuiescence()
+				}
+				cbOut = p.Out
+				peer.Close()
+				srv.WaitStatus()
+			})
+			r.Calls(xc.Steps)
+			if xc.Outcome != "ok" {
+				r.Fail("G1", "17 callbacks", "server run ended with "+xc.Outcome+" "+firstLine(xc.Detail), "")
+			}
+			if len(cbOut) != 17 {
+				r.Fail("C13.R3", "17 callbacks", fmt.Sprintf("%d records emitted", len(cbOut)), "")
+			}
+			for k, rec := range cbOut {
+				r.Case("push/callback", true)
+				for _, vi := range wireRules(rec, &wireWant{Kind: "request", Method: "cb", Params: fmt.Sprintf("[%d]", k)}) {
+					r.Fail(vi.Rule, fmt.Sprintf("callback number %d", k+1), vi.Msg, "")
+				}
+			}
 			r.Sample(map[string]any{"id": `"é\n"`, "result": "raw pre-encoded JSON with CRLF between tokens", "error_data": map[string]any{"k\n": []any{nil}}})
 		},
 	}
